@@ -10,3 +10,5 @@ func uninstallFineGrain()       {}
 func setSimClock(t int64, onRead func(site string)) {}
 
 func setStmtHook(f func(site string)) {}
+
+func setSimTimers(on bool, early bool, onStart func(site string)) {}
